@@ -97,3 +97,17 @@ def zero_variance_columnwise(var, mean, atol, rtol):
 
 def zero_variance_total(var, mean, atol, rtol):
     return var.sum() < abs(np.average(mean)) * rtol + atol
+
+
+def zero_variance_guard(X, sample_weight, column_wise, weighted, atol, rtol):
+    # the statistic that is about to be square-rooted (weighted population variance about the
+    # weighted mean, per column or summed) is below atol + |mean| rtol
+    if weighted:
+        w = sample_weight / np.sum(sample_weight)
+    else:
+        w = None
+    mean = np.average(X, weights=w, axis=0)
+    var = np.average((X - mean) ** 2, weights=w, axis=0)
+    if column_wise:
+        return zero_variance_columnwise(var, mean, atol, rtol)
+    return zero_variance_total(var, mean, atol, rtol)
